@@ -980,3 +980,89 @@ func EncodeResponse(proto string, unary bool, reqContentType string, r AppRespon
 	}
 	return 500, header, nil, trailer
 }
+
+// ---- a conformant foreign client: requests under the freedoms the protocols leave (C05, converse) -------
+
+// ReqChoices are the freedoms a client has in writing a request.
+type ReqChoices struct {
+	Encoding     string // algorithm named in the request's encoding header ("" = none)
+	Mask         int    // bit i: message i is sent compressed (streams; a unary Connect body is compressed iff Encoding)
+	PadBin       bool   // padded base64 in -Bin header values
+	BareCT       bool   // gRPC family with the proto codec: "application/grpc" / "application/grpc-web" without "+proto"
+	SpacedAccept bool   // "a, b" instead of "a,b" in the accept-encoding list
+	NoVersion    bool   // Connect: leave the optional Connect-Protocol-Version header out
+}
+
+// EncodeRequest writes a request: msgs are codec-encoded messages, hdr application headers (-Bin values unpadded
+// base64), accept the algorithms the client can read, in order of preference.
+func EncodeRequest(proto string, unary bool, codec string, msgs [][]byte, hdr http.Header, accept []string, c ReqChoices) (header http.Header, body []byte) {
+	header = http.Header{}
+	for k, vs := range hdr {
+		for _, v := range vs {
+			if strings.HasSuffix(strings.ToLower(k), "-bin") && c.PadBin {
+				if raw, err := B64Decode(v); err == nil {
+					v = B64Encode(raw, true)
+				}
+			}
+			header.Add(k, v)
+		}
+	}
+	sep := ","
+	if c.SpacedAccept {
+		sep = ", "
+	}
+	acc := strings.Join(accept, sep)
+	switch proto {
+	case Connect:
+		if !c.NoVersion {
+			header.Set("Connect-Protocol-Version", "1")
+		}
+		if unary {
+			header.Set("Content-Type", "application/"+codec)
+			if acc != "" {
+				header.Set("Accept-Encoding", acc)
+			}
+			if len(msgs) > 0 {
+				body = msgs[0]
+			}
+			if c.Encoding != "" {
+				header.Set("Content-Encoding", c.Encoding)
+				body = Compress(c.Encoding, body)
+			}
+			return header, body
+		}
+		header.Set("Content-Type", "application/connect+"+codec)
+		if acc != "" {
+			header.Set("Connect-Accept-Encoding", acc)
+		}
+		if c.Encoding != "" {
+			header.Set("Connect-Content-Encoding", c.Encoding)
+		}
+	default:
+		base := "application/grpc"
+		if proto == GRPCWeb {
+			base = "application/grpc-web"
+		} else {
+			header.Set("Te", "trailers")
+		}
+		if codec == "proto" && c.BareCT {
+			header.Set("Content-Type", base)
+		} else {
+			header.Set("Content-Type", base+"+"+codec)
+		}
+		if acc != "" {
+			header.Set("Grpc-Accept-Encoding", acc)
+		}
+		if c.Encoding != "" {
+			header.Set("Grpc-Encoding", c.Encoding)
+		}
+	}
+	for i, m := range msgs {
+		if c.Encoding != "" && c.Mask&(1<<uint(i)) != 0 && len(m) > 0 {
+			body = append(body, Envelope(1, Compress(c.Encoding, m))...)
+		} else {
+			body = append(body, Envelope(0, m)...)
+		}
+	}
+	return header, body
+}
